@@ -178,7 +178,7 @@ theorem elected_only_by_quota_or_last_standing {E : Engine} (hE : EngineOK E) {c
     intro ck hck
     rw [he1] at hck
     exact ⟨qv, hq, hpos, (election_facts hk hpos hel).2 ck hck⟩
-  | elimination hout =>
+  | elimination _ hout =>
     right
     obtain ⟨_, _, _, _, he1, he2⟩ := afterElimination_inv hout
     exact ⟨he2, by rw [he1]; intro ck hck; cases hck⟩
@@ -213,7 +213,7 @@ theorem eliminates_exactly_lowest {E : Engine} (hE : EngineOK E) {cfg : Cfg} {in
     | election qv hq hpos el hel' hne hout =>
       obtain ⟨_, _, _, _, he1, _, _⟩ := afterElection_inv hout
       exact absurd (he1 ▸ hel) hne
-    | elimination hout => exact hout
+    | elimination _ hout => exact hout
   obtain ⟨retained, hsel, he, _, _, _⟩ := afterElimination_inv hout
   rw [hstep] at hsel
   have hes := elim_spec hneg hsel
@@ -266,7 +266,7 @@ theorem removed_after_election_are_elected {E : Engine} {cfg : Cfg} {a : Alloc} 
     unfold fullyElected at hc
     obtain ⟨ck, hck, rfl⟩ := List.mem_map.mp hc
     exact List.mem_map.mpr ⟨ck, (List.mem_filter.mp hck).1, rfl⟩
-  | elimination hout =>
+  | elimination _ hout =>
     obtain ⟨_, _, _, _, he1, _⟩ := afterElimination_inv hout
     exact absurd he1 hne
 
